@@ -43,7 +43,7 @@ def run(prop, tier, seed, scratch, replay=None):
     bfs = vlib.run_tlc(scratch, "Spend.tla", cfg, out_traces=traces, tag="bfs",
                        timeout=3400 if tier == "thorough" else 600)
     vlib.require_tlc_ok(bfs, "exhaustive exploration")
-    cov = vlib.op_histogram(traces, ["Receive", "Mine", "Lock", "Unlock", "Send", "SendExplicit", "FundOwn", "DryRun", "Restart"], cfg)
+    cov = vlib.op_histogram(traces, ["Receive", "Mine", "Lock", "Unlock", "Send", "SendExplicit", "SendDup", "FundOwn", "DryRun", "Restart"], cfg)
     simtr = scratch.path("sim.ndjson")
     sim = vlib.run_tlc(scratch, "Spend.tla", "MC_Spend_sim.cfg", simulate=NSIM[tier], depth=29, seed=seed,
                        out_traces=simtr, tag="sim", timeout=1800)
